@@ -31,3 +31,10 @@ package evalopts
 //@   ensures err == nil ==> haskey(m, name) && m[name] == value
 //@   ensures forall s string :: s != name || err != nil ==> haskey(m, s) == old(haskey(m, s)) && m[s] == old(m[s])
 //@   assigns map:cfg.Context.ExternalConstants
+
+// C04: OverrideTime replaces the evaluation's one instant and nothing else
+//@ func OverrideTime$1(cfg) (err)
+//@   requires cfg != nil && cfg.Context != nil
+//@   ensures err == nil && cfg.Context.Now == t
+//@   ensures cfg.Context.ExternalConstants == old(cfg.Context.ExternalConstants)
+//@   assigns *
